@@ -13,7 +13,10 @@ RULE = ('files with 2-4 dimensions (lengths 1-4), 1-4 data variables over a rand
         'std/var only against the Python oracle) or a length-changing callable (numpy.diff, x[::k], numpy.convolve with an '
         'integer kernel in modes full/same/valid), incl. middle axes and mixed reducer/callable; keyword order random. '
         'the documented dict(func1d=f, **kwargs) form for ~30% of the callables (numpy.convolve with v=, mode= keywords); '
-        'Malformed stream (~12%): unknown dimension, method without keepdims, missing method. '
+        'Malformed stream (~12%): unknown dimension, method without keepdims, missing method. 12% of the cases go through the IOAPI '
+        'wrapper (ioapi_base.from_arrays file with (TSTEP,LAY,ROW,COL) variables; data variables, dimension lengths, VGLVLS/NLAYS '
+        'compared; TFLAG left to C10) and 12% through the string forms core/_functions.reduce_dim / convolve_dim on the subset they '
+        'express (one dimension; named reducer / integer kernel) — all against the same model call impl_apply. '
         'Every case: F = Coq model (Model/Apply.v, vm_compute) vs library: exception class or new dimension lengths + '
         'per-variable shape and cells (exact; non-dyadic means within 2^-40 relative or 2^-30 absolute); S = Coq spec_file_ok and an independent '
         'numpy oracle (explicit lane loops). Non-trivial = some variable changed shape.')
@@ -124,8 +127,80 @@ def _one(rng, tier):
     return dict(kind=kind, dims=dims, vars=vars_, funcs=funcs)
 
 
+IONAMES = {'t': 'TSTEP', 'z': 'LAY', 'y': 'ROW', 'x': 'COL'}
+
+
+def _one_ioapi(rng, tier):
+    """ioapi_base.applyAlongDimensions: same call through the IOAPI wrapper (data variables are (TSTEP,LAY,ROW,COL))"""
+    dims = [[d, rng.choice([1, 2, 2, 3])] for d in DIMS]
+    dl = dict(dims)
+    nf = rng.choice([1, 1, 2])
+    fdims = rng.sample(DIMS, nf)
+    if rng.random() < 0.5 and 'z' not in fdims:
+        fdims[0] = 'z'
+    funcs = []
+    for d in fdims:
+        f = _gen_func(rng, 'search', dl[d])
+        if d == 'z' and f['t'] == 'red' and f['name'] == 'mean' and dl['z'] == 3:
+            dl['z'] = 2                       # float32 VGLVLS: keep the mean dyadic
+            dims = [[k, dl[k]] for k in DIMS]
+        if d == 't' and f['t'] != 'red':
+            f = dict(t='red', name=rng.choice(['sum', 'max', 'mean']))   # TSTEP: reducers only (TFLAG/updatemeta is C10)
+        funcs.append([d, f])
+    use_prod = any(f['t'] == 'red' and f['name'] == 'prod' for _, f in funcs)
+    size = dl['t'] * dl['z'] * dl['y'] * dl['x']
+    vars_ = []
+    for i in range(rng.randint(1, 2)):
+        lim = 2 if use_prod else 9
+        den = 1 if use_prod else 4
+        vars_.append(dict(name='AB'[i], dtype='f8', dims=list(DIMS), data=[rng.randint(-lim, lim) for _ in range(size)], den=den, mask=None))
+    nl = dl['z']
+    top = rng.randint(nl, 8)
+    edges = sorted(rng.sample(range(0, top + 1), nl + 1), reverse=True)      # descending sigma edges in 1/8
+    return dict(kind='ioapi-' + '+'.join(_base(f).get('name', _base(f)['t']) for _, f in funcs), via='ioapi',
+                dims=dims, vars=vars_, funcs=funcs, vgl=edges)
+
+
+def _one_string(rng, tier):
+    """core/_functions.reduce_dim / convolve_dim: the string forms of the command line, on the subset they express"""
+    for _ in range(50):
+        c = _one(rng, tier)
+        if c['kind'].startswith('ok'):
+            break
+    used = [d for d, _ in c['dims'] if any(d in v['dims'] for v in c['vars'])]
+    d = rng.choice(used)
+    dl = dict(c['dims'])
+    if rng.random() < 0.6:
+        c['funcs'] = [[d, dict(t='red', name=rng.choice(REDS))]]
+        c['via'] = 'reduce_dim'
+        for v in c['vars']:
+            if v['mask'] is not None and d not in v['dims']:
+                v['dtype'] = 'f8'            # one fill value (1e20) for the known-finding region
+        if c['funcs'][0][1]['name'] == 'prod':
+            for v in c['vars']:
+                v['data'] = [max(-2, min(2, x)) for x in v['data']]
+                v['den'] = 1
+    else:
+        ker = [rng.randint(-2, 3) for _ in range(rng.randint(1, 3))]
+        c['funcs'] = [[d, dict(t='conv', mode=rng.choice(['full', 'same', 'valid']), ker=ker)]]
+        c['via'] = 'convolve_dim'
+        for v in c['vars']:
+            v['mask'] = None                 # convolve on masked lanes is outside the model
+    c['kind'] = c['via'] + '-' + _base(c['funcs'][0][1]).get('name', 'conv')
+    return c
+
+
 def gen(rng, n, tier):
-    return [_one(rng, tier) for _ in range(n)]
+    out = []
+    for _ in range(n):
+        r = rng.random()
+        if r < 0.12:
+            out.append(_one_ioapi(rng, tier))
+        elif r < 0.24:
+            out.append(_one_string(rng, tier))
+        else:
+            out.append(_one(rng, tier))
+    return out
 
 
 # ----------------------------------------------------------------------------- the library
@@ -167,9 +242,46 @@ def _cells(a):
     return [None if m_ else (int(x) if isint else float(x).hex()) for x, m_ in zip(flat, mk)]
 
 
+def _impl_ioapi(case):
+    import numpy as np
+    from PseudoNetCDF.cmaqfiles import ioapi_base
+    dl = dict(case['dims'])
+    shape = [dl[d] for d in DIMS]
+    arrs = {v['name']: _arr(v, shape) for v in case['vars']}
+    fa = dict(SDATE=2020001, STIME=0, TSTEP=10000, VGLVLS=np.array(case['vgl'], dtype='f') / 8, VGTOP=5000.,
+              XORIG=0., YORIG=0., XCELL=1000., YCELL=1000., NTHIK=1)
+    f = ioapi_base.from_arrays(fileattrs=fa, **arrs)
+    kw = {IONAMES[d]: _pyfunc(fn) for d, fn in case['funcs']}
+    with np.errstate(all='ignore'):
+        out = f.applyAlongDimensions(**kw)
+    back = {v: k for k, v in IONAMES.items()}
+    return dict(dims=[[back[k], len(v)] for k, v in out.dimensions.items() if k in back],
+                vars=[dict(name=k, dims=[back[d] for d in v.dimensions], shape=list(v.shape), dtype=v.dtype.str[1:],
+                           cells=_cells(v[...])) for k, v in out.variables.items() if k != 'TFLAG'],
+                vglvls=[float(x).hex() for x in np.asarray(out.VGLVLS, dtype='d').ravel().tolist()],
+                nlays=int(out.NLAYS), meta_dims={k: len(v) for k, v in out.dimensions.items() if k not in back})
+
+
+def _impl_string(case, f):
+    import numpy as np
+    from PseudoNetCDF.core._functions import reduce_dim, convolve_dim
+    (d, fn), = case['funcs']
+    with np.errstate(all='ignore'):
+        if case['via'] == 'reduce_dim':
+            out = reduce_dim(f, '%s,%s' % (d, fn['name']))
+        else:
+            out = convolve_dim(f, ','.join([d, fn['mode']] + [str(k) for k in fn['ker']]))
+    order = [k for k, _ in case['dims']]
+    return dict(dims=[[k, len(out.dimensions[k])] for k in order if k in out.dimensions],
+                vars=[dict(name=k, dims=list(v.dimensions), shape=list(v.shape), dtype=v.dtype.str[1:],
+                           cells=_cells(v[...])) for k, v in out.variables.items()])
+
+
 def impl(case):
     import numpy as np
     from PseudoNetCDF import PseudoNetCDFFile
+    if case.get('via') == 'ioapi':
+        return _impl_ioapi(case)
     f = PseudoNetCDFFile()
     dl = dict(case['dims'])
     for d, n in case['dims']:
@@ -177,6 +289,8 @@ def impl(case):
     for v in case['vars']:
         shape = [dl[d] for d in v['dims']]
         f.createVariable(v['name'], v['dtype'], tuple(v['dims']), values=_arr(v, shape))
+    if case.get('via') in ('reduce_dim', 'convolve_dim'):
+        return _impl_string(case, f)
     kw = {}
     for d, fn in case['funcs']:
         kw[d] = _pyfunc(fn)
@@ -246,18 +360,33 @@ def _in_model(case):
 def coq_term(case, obs):
     if not _in_model(case):
         return None
+    dl = dict(case['dims'])
+    cdims = ['(%d%%nat, %d%%nat)' % (_did(d), n) for d, n in case['dims']]
+    fdz = dict((d, f) for d, f in case['funcs']).get('z')
+    extra_in = None
+    odims, ovars = [], []
+    if case.get('via') == 'ioapi' and 'raises' not in obs and fdz is not None and fdz['t'] == 'red':
+        # VGLVLS through the same model call: the wrapper reduces a (lay, nv) bounds variable with the LAY function
+        if len(obs['vglvls']) != 2:
+            return None
+        nl = dl['z']
+        layb = []
+        for i in range(nl):
+            layb += [_q(Fraction(case['vgl'][i], 8)), _q(Fraction(case['vgl'][i + 1], 8))]
+        extra_in = '(IVar 14%%nat [1%%nat; 8%%nat] [%d%%nat; 2%%nat] [%s])' % (nl, '; '.join(layb))
+        cdims.append('(8%nat, 2%nat)')
+        odims.append('(8%nat, 2%nat)')
+        ovars.append('([1%%nat; 2%%nat], [%s])' % '; '.join(_q(Fraction(float.fromhex(x))) for x in obs['vglvls']))
     if 'raises' in obs:
         if obs['raises'] not in ERRS:
             return None
         o = '(ORaise %s)' % ERRS[obs['raises']]
     else:
-        by = {v['name']: v for v in obs['vars']}
         if [v['name'] for v in obs['vars']] != [v['name'] for v in case['vars']]:
             return None
         o = '(OFile [%s] [%s])' % (
-            '; '.join('(%d%%nat, %d%%nat)' % (_did(d), n) for d, n in obs['dims']),
-            '; '.join('(%s, [%s])' % (C.natlist(v['shape']), '; '.join(_cell_out(x) for x in v['cells'])) for v in obs['vars']))
-    dl = dict(case['dims'])
+            '; '.join(['(%d%%nat, %d%%nat)' % (_did(d), n) for d, n in obs['dims']] + odims),
+            '; '.join(['(%s, [%s])' % (C.natlist(v['shape']), '; '.join(_cell_out(x) for x in v['cells'])) for v in obs['vars']] + ovars))
     vs = []
     for v in case['vars']:
         cells = [None if (v['mask'] is not None and v['mask'][i]) else x for i, x in enumerate(v['data'])]
@@ -265,10 +394,12 @@ def coq_term(case, obs):
         vs.append('(IVar %d%%nat %s %s [%s])' % (
             _vid(v['name']), C.natlist([_did(d) for d in v['dims']]),
             C.natlist([dl[d] for d in v['dims']]), '; '.join(_cell_in(x, v['den']) for x in cells)))
-    return '(Case [%s] [%s] [%s] %s)' % (
-        '; '.join('(%d%%nat, %d%%nat)' % (_did(d), n) for d, n in case['dims']),
-        '; '.join(vs),
-        '; '.join('(%d%%nat, %s)' % (_did(d), _fdesc(f)) for d, f in case['funcs']), o)
+    if extra_in:
+        vs.append(extra_in)
+    fill = '(Some (Qmake 100000000000000000000 1))' if case.get('via') in ('reduce_dim', 'convolve_dim') else 'None'
+    return '(Case [%s] [%s] [%s] %s %s)' % (
+        '; '.join(cdims), '; '.join(vs),
+        '; '.join('(%d%%nat, %s)' % (_did(d), _fdesc(f)) for d, f in case['funcs']), fill, o)
 
 
 # ----------------------------------------------------------------------------- independent numpy oracle
@@ -322,8 +453,10 @@ def _same(exp, shape, cells):
 
 def py_check(case, obs):
     import numpy as np
-    region = 0
     dl = dict(case['dims'])
+    named0 = set(d for d, _ in case['funcs'])
+    region = 1 if (case.get('via') in ('reduce_dim', 'convolve_dim') and any(
+        v['mask'] is not None and any(v['mask']) and not any(d in named0 for d in v['dims']) for v in case['vars'])) else 0
     fd = {d: f for d, f in case['funcs']}
     malformed = any(d not in dl for d in fd) or any(
         f['t'] == 'red' and f['name'] not in ('sum', 'prod', 'min', 'max', 'mean', 'std', 'var') for f in fd.values())
@@ -374,6 +507,22 @@ def py_check(case, obs):
                 elif v['dtype'] != 'f8' and o['dtype'][0] != 'f' and any(
                         f['t'] == 'red' and f['name'] in NONINT for f in fs):
                     why.append('%s: %s of an integer variable stored as %s' % (v['name'], [f.get('name') for f in fs], o['dtype']))
+        if case.get('via') == 'ioapi':
+            lo = np.array(case['vgl'][:-1], dtype='f') / 8
+            hi = np.array(case['vgl'][1:], dtype='f') / 8
+            if 'z' in fd:
+                f = fd['z']
+                if f['t'] == 'red':
+                    lo, hi = getattr(lo, f['name'])(keepdims=True), getattr(hi, f['name'])(keepdims=True)
+                else:
+                    g = _pyfunc(_base(f))
+                    lo, hi = np.asarray(g(lo)), np.asarray(g(hi))
+            exp = np.append(lo, hi[-1:]).astype('d').tolist()
+            got = [float.fromhex(x) for x in obs['vglvls']]
+            if len(exp) != len(got) or any(abs(a - b) > 1e-6 * max(1.0, abs(a)) for a, b in zip(exp, got)):
+                why.append('VGLVLS %s, expected %s' % (got, exp))
+            if obs['nlays'] != len(lo):
+                why.append('NLAYS %s, expected %d' % (obs['nlays'], len(lo)))
     return dict(s_ok=not why, region=region, why='; '.join(why))
 
 
@@ -408,11 +557,15 @@ LEVEL_TEXT = ('Theorems (Props/C03.v, all closed under the global context) over 
               'dimension lengths and shape consistency incl. coordinate variables (C03_new_dimlens, C03_reducer_len_one, '
               'C03_result_wellformed); keepdims reductions with any associative-commutative operation commute over any set of distinct '
               'axes, any rank/shape, masked-aware (C03_reducers_any_order, C03_masked_reducers_any_order, C03_masked_iff_all_masked, '
-              'C03_sum_prod_any_order); the code ignores naming order (C03_naming_order_irrelevant). No _partial/_refuted theorem is left: '
-              'the two defects found (integer mean truncated; dict form raising) are repaired (known_findings fixed:) and their inputs are '
-              'corpus cases. Tie H: library vs model on every generated case incl. exception classes.')
+              'C03_sum_prod_any_order); the code ignores naming order (C03_naming_order_irrelevant); integer-valued variables stay '
+              'integer-valued under sum/prod/min/max/diff/sub-sampling/integer-kernel convolution while mean is fractional '
+              '(C03_integer_lanes_stay_integer, C03_integer_vars_stay_integer, C03_mean_fractional). Tie H: library vs model on every '
+              'generated case incl. exception classes, through PseudoNetCDFFile.applyAlongDimensions, the IOAPI wrapper (data, dims, '
+              'VGLVLS via the same model call) and the string forms reduce_dim/convolve_dim. One known finding is left, in the string forms '
+              'only (masked cells of variables lacking the dimension come back unmasked holding the fill value); the two defects of '
+              'applyAlongDimensions itself are repaired (known_findings fixed:, corpus cases).')
 LEVEL_NOTE = ('Trusted: Coq kernel + vm_compute; the harness; numpy axis semantics = NdApply.apply_axis (differentially validated). '
-              'Not proved: absence of ValueError for well-formed files; std/var and convolve-on-masked are Python-oracle only; a callable '
-              'that returns a scalar (x=numpy.mean) is outside the property and still fails on a non-leading axis; the IOAPI wrapper and '
-              'the reduce_dim/convolve_dim string forms are not covered.')
+              'Not proved: absence of ValueError for well-formed files; std/var and convolve-on-masked are Python-oracle only; result '
+              'dtypes are checked by the oracle, the model only proves the value class; IOAPI TFLAG/VAR-LIST metadata after the call is '
+              'C10; reduce_dim weights/bounds-variable forms and fuzzy dimension names are not driven.')
 TECHNIQUE = 'Coq proof (induction over axis lists / permutations, fold exchange) + vm_compute refutation witness + differential correspondence'
